@@ -252,8 +252,14 @@ pub fn check(scn: &Scenario, stats: &mut Stats) -> Vec<Violation> {
                         .iter()
                         .filter(|(_, f, l)| *f == d.file && *l == d.line)
                         .find_map(|(name, _, _)| s.nodes.iter().position(|n| n.labels.contains(name)));
-                    by_label.or_else(|| s.nodes.iter().position(|n| n.file == d.file && n.line == d.line && !n.funcs.is_empty()))
+                    // (a rewritten return carries the location of its function's exit, so several
+                    // nodes can claim one line: all of them are candidates)
+                    Some(match by_label {
+                        Some(i) => vec![i],
+                        None => s.nodes.iter().enumerate().filter(|(_, n)| n.file == d.file && n.line == d.line && !n.funcs.is_empty()).map(|(i, _)| i).collect::<Vec<usize>>(),
+                    })
                 })
+                .flatten()
                 .collect();
             for a in 0..s.funcs.len() {
                 for b in a + 1..s.funcs.len() {
@@ -267,7 +273,7 @@ pub fn check(scn: &Scenario, stats: &mut Stats) -> Vec<Violation> {
                         out.push(viol(
                             "F4:sharing-reported-iff-exists",
                             "F4:pair-sharing-not-reported".into(),
-                            format!("entropy {e}: functions {:?} and {:?} share instructions but no node-in-many-functions diagnostic is located on an instruction both own (diagnostics at {:?})", s.funcs[a].labels, s.funcs[b].labels, located.iter().map(|i| at(s, *i)).collect::<Vec<_>>()),
+                            format!("entropy {e}: functions {:?} and {:?} share instructions but no node-in-many-functions diagnostic is located on an instruction both own (diagnostics at {:?}; shared: {:?})", s.funcs[a].labels, s.funcs[b].labels, located.iter().map(|i| format!("{} owners {:?}", at(s, *i), s.nodes[*i].funcs)).collect::<Vec<_>>(), s.funcs[a].nodes.iter().filter(|i| s.funcs[b].nodes.contains(i)).map(|i| format!("{} owners {:?}", at(s, *i), s.nodes[*i].funcs)).collect::<Vec<_>>()),
                         ));
                         return out;
                     }
